@@ -45,7 +45,16 @@ ChecksInvalid(e) ==
     <<"towire-refuses-invalid-value", e.built => ~e.tw.ok>>,
     <<"stream-encode-refuses-invalid-value", e.built => ~e.se.ok>> }
 
-Checks(e) == IF e.op = "invalid" THEN ChecksInvalid(e) ELSE ChecksCodec(e)
+\* the one schema-conforming nil: a required list (also through typedefs) left as a nil slice is an empty list
+ChecksNilList(e) ==
+  LET S == e.case.S IN
+  { <<"no-panic", e.panic = "" /\ e.known>>,
+    <<"nil-list-built", e.built>>,
+    <<"towire-encodes-nil-list-as-empty", e.tw.ok /\ EqL(DecRef(S, T(e), e.tw.b), Want(e))>>,
+    <<"stream-encodes-nil-list-as-empty", e.se.ok /\ EqL(DecRef(S, T(e), e.se.b), Want(e))>> }
+
+Checks(e) == IF e.op = "invalid" /\ e.case.mut = "nil-list" THEN ChecksNilList(e)
+             ELSE IF e.op = "invalid" THEN ChecksInvalid(e) ELSE ChecksCodec(e)
 
 Init == l = 1 /\ bad = {} /\ drift = {}
 Next == /\ l <= Len(Trace)
